@@ -77,6 +77,9 @@ type Group struct {
 	MaxFrameFn int
 	ClockReads int
 	RandDraws  int
+	NTasks     int // goroutines of this call, the caller included
+	ChildPanic any // first panic raised in a goroutine started by the call (process-fatal in real Go)
+	ChildStack []byte
 	clockExtra int64
 
 	SiteExec  []int32 // executions per site
@@ -97,6 +100,7 @@ type Group struct {
 	aborted   bool // a budget was exceeded: further ticks of sibling tasks abort too
 	abort     any
 	abortTask *Task
+	faultFired bool
 	abortAt   uint64
 }
 
@@ -157,6 +161,7 @@ func (d Deadlock) Error() string { return "simrt: deadlock: " + d.Msg }
 // tables (names only; correctness never depends on them)
 
 var (
+	NoFaultFn []bool // indexed by function id: no tick-fault is injected while such a function is the innermost activation
 	FuncNames []string
 	SiteNames []string
 	TickNames []string
@@ -312,8 +317,21 @@ func (g *Group) tick(t *Task, code uint64, id int, isFn bool) {
 		}
 		return
 	}
-	if g.Ticks == g.cfg.PanicAtTick {
-		panic(InjectedPanic{Tick: g.Ticks})
+	if g.cfg.PanicAtTick > 0 && !g.faultFired && g.Ticks >= g.cfg.PanicAtTick {
+		// first eligible tick at or after the requested one. Ticks inside the functions listed in NoFaultFn
+		// (the monitor package: the very clean-up mechanism C18 is about) are not eligible: a panic there
+		// does not stand for "an internal panic of the pipeline".
+		fn := id
+		if !isFn {
+			fn = -1
+			if n := len(t.frames); n > 0 {
+				fn = t.frames[n-1].fn
+			}
+		}
+		if !(fn >= 0 && fn < len(NoFaultFn) && NoFaultFn[fn]) {
+			g.faultFired = true
+			panic(InjectedPanic{Tick: g.Ticks})
+		}
 	}
 	if g.Ticks > g.cfg.TickBudget && g.cfg.TickBudget > 0 {
 		name := ""
